@@ -414,6 +414,7 @@ def main(argv):
     ap.add_argument('--seed', type=int, default=int(os.environ.get('VERIF_SEED', '1')))
     ap.add_argument('--replay')
     a = ap.parse_args(argv)
+    os.environ.setdefault('VERIF_DRIFT_RENDER_EVERY', '1' if a.tier == 'thorough' else '6')
     if a.prop == 'selftest':
         from . import selftest
         return selftest.main()
